@@ -266,6 +266,25 @@ def sup_member(desc, tier, seed):
     except RuntimeError:
         ctx.check('C20.non-final-source-rejected', True, ['sup', 'non-final'], '', (desc.label, 'non-final'))
 
+    # a supplementary graph with only an existence mapping: nothing but the up-front check can reject a non-final source
+    if not src.final:
+        try:
+            sup2 = SupDSG()
+            r2 = SupNode('root2')
+            o_a, o_b = SupNode('only_a'), SupNode('only_b')
+            c2 = sup2.add_selection_choice('sup_only_exist', r2, [o_a, o_b])
+            any_node = [b.node[n] for n in desc.nodes if b.node[n] in src.graph.nodes][0]
+            sup2.add_mapping(c2, src, SupExistenceMapping({any_node: o_a, None: o_b}))
+            sup2 = sup2.set_start_nodes({r2})
+            try:
+                sup2.resolve(src)
+                ctx.check('C20.non-final-source-rejected', False, ['sup', 'existence-only', 'non-final'],
+                          'resolve accepted a non-final source for a supplementary graph with only an existence mapping', (desc.label, 'non-final-2'))
+            except RuntimeError:
+                ctx.check('C20.non-final-source-rejected', True, ['sup', 'existence-only', 'non-final'], '', (desc.label, 'non-final-2'))
+        except Exception as e:  # noqa
+            ctx.check('C20.complete-mapping-accepted', False, ['sup', 'existence-only', 'build'], f'{type(e).__name__}: {e}', (desc.label, 'build2'))
+
     def resolve_src(a):
         g = src
         while True:
